@@ -136,7 +136,8 @@ TrCall ==
        /\ Dispatch(Ev)
        /\ LET e == Ev
               outOK == outcome' = e.out
-              c08side == IsBP(outcome') \/ IsBP(e.out) \/ e.op \in GuardOps
+              \* a presence query is a pure map query (C09): it borrows nothing, so no outcome of it is C08's business
+              c08side == (IsBP(outcome') \/ IsBP(e.out) \/ e.op \in GuardOps) /\ e.op \notin {"has_value", "has_value_raw"}
               a1 == outOK \/ ~c08side
               a2 == outOK \/ c08side
               a3 == /\ ObsBSeq(e.obs) = SpecBSeq(borrow')
